@@ -58,6 +58,16 @@ def programs(tier, seed):
     progs = []
     for k, (fam, D) in enumerate(ds):
         progs.append({"id": f"{fam}#{k}", "D": D, "style": "gen" if k % 3 == 0 else "proc"})
+    # several instance arrays in ONE module (whatever order the elaborator takes them in must be the designer's, not a hash order) ...
+    for names in (["arr", "x1", "zz", "b0"], ["u", "v", "w", "a", "m", "k"], ["stage", "bias", "load"]):
+        sigs = [U.sig("s", 1)] + [U.sig("w_" + n, 2) for n in names]
+        insts = [U.inst(n, "L1", [("a", Sig("w_" + n) if k % 2 else Sig("s"))], kind="array", arr=2, k="ext") for k, n in enumerate(names)]
+        progs.append({"id": f"arrays#{len(progs)}", "D": U.design({"Top": U.mod(sigs, insts)}), "style": "proc"})
+    # ... and a module with several bundle-valued ports sent through the built-in Wrapper generator
+    for nports in (2, 3, 4, 6):
+        ports = [f"{'pqbxza'[k]}{k}" for k in range(nports)]
+        cb = U.mod([], [x for p in ports for x in U.bprobes(p, U.B1_LEAVES)], [U.bnd(p, "B1", port=True) for p in ports], probes=False)
+        progs.append({"id": f"wrapper#{len(progs)}", "kind": "wrap", "D": U.design({"Top": cb}, bundles={"B1": U.B1}), "style": "proc"})
     # parameterised generators: names made from parameter values (readable form, and md5 of JSON for nested / long / ambiguous values), with unrelated
     # earlier calls in the same process that use equal values written differently
     twins = {1: [1.0], 4: [4.0], 2.5: [2.5], 0: [0.0, -0.0]}
